@@ -190,16 +190,34 @@ def setNoChecks (e : Nat) (name : String) (val : Obj) (create : Bool) : M Obj :=
       pure val
     | _ => envCreate e name val
 
+mutual
+/-- `sameTypes` of object/state.go: same type, and for arrays and maps the same types element by element
+(containers hold values, never references) -/
+def sameTypes : Obj → Obj → Bool
+  | .array a, .array b => sameTypesList a b
+  | .map _ a, .map _ b => sameTypesPairs a b
+  | a, b => a.typeNum == b.typeNum
+def sameTypesList : List Obj → List Obj → Bool
+  | a :: as, b :: bs => sameTypes a b && sameTypesList as bs
+  | [], [] => true
+  | _, _ => false
+def sameTypesPairs : List (Obj × Obj) → List (Obj × Obj) → Bool
+  | (ka, va) :: as, (kb, vb) :: bs => sameTypes ka kb && sameTypes va vb && sameTypesPairs as bs
+  | [], [] => true
+  | _, _ => false
+end
+
 /-- `(*Environment).CreateOrSet` -/
 def createOrSet (e : Nat) (name : String) (val : Obj) (create : Bool) : M Obj := do
   if isConstant name then
     match ← envGet e name with
     | some old =>
-      -- Equals: type test on the raw objects (a Reference is not type-equal to a value), then Cmp
+      -- sameValue = Equals (type test on the raw objects: a Reference is not type-equal to a value; then Cmp)
+      -- and the same types at every level
       let same ← if old.typeNum != val.typeNum then pure false else do
         let o ← valueOf old
         let v ← valueOf val
-        pure ((← liftR (cmp o v)) == 0)
+        pure ((← liftR (cmp o v)) == 0 && sameTypes o v)
       if !same then
         return .error ("attempt to change constant " ++ name)
     | none => pure ()
